@@ -155,6 +155,44 @@ func main() {
 		emit(Case{Kind: "fromeq", Code: code, A: []int64{int64(a)}, B: []int64{int64(b)}, Obs: []int64{b2i(fe.Equal(a, b))}})
 		fo := ord.From[int](func(x, y int) ord.Ordering { return ord.Int.Compare(x, y+int(code)) })
 		emit(Case{Kind: "fromord", Code: code, A: []int64{int64(a)}, B: []int64{int64(b)}, Obs: []int64{int64(fo.Compare(a, b))}})
+		// a wrapped comparator may return any Ordering, not only LT/EQ/GT (a distance, a difference of lengths): From
+		// returns exactly what it returns - directly and as the base of a ContraMap
+		dist := ord.From[int](func(x, y int) ord.Ordering { return ord.Ordering(x - y + int(code)) })
+		emit(Case{Kind: "fromorddist", Code: code, A: []int64{int64(a)}, B: []int64{int64(b)}, Obs: []int64{int64(dist.Compare(a, b))}})
+		cmo4 := ord.ContraMap[int, int]{Ord: dist, ContraMap: pure.ContraMap[int, int](proj(code))}
+		emit(Case{Kind: "cmfromorddist", Code: code, A: []int64{int64(a)}, B: []int64{int64(b)}, Obs: []int64{int64(cmo4.Compare(a, b))}})
+		// a monoid over slices whose operation is not commutative (concatenation into a fresh slice) and whose given
+		// "empty" element is a NON-EMPTY slice (the instances take whatever they are given: 2x2 matrices as []int
+		// have the identity [1 0 0 1]); Empty() is that element, Combine the given operation with arguments in order
+		cat := func(x, y []int) []int { return append(append([]int{}, x...), y...) }
+		se := []int{a, a + 1}
+		if i%4 == 0 {
+			se = []int{}
+		} else if i%4 == 1 {
+			se = nil
+		}
+		sa, sb := []int{a, b, 7}[:1+i%3], []int{b, 5}[:i%3]
+		var ms monoid.Monoid[[]int]
+		if i%2 == 0 {
+			ms = monoid.From[[]int](se, semigroup.From[[]int](cat))
+		} else {
+			ms = monoid.FromOp[[]int](se, cat)
+		}
+		so := []int64{}
+		for _, l := range [][]int{ms.Empty(), ms.Combine(sa, sb), ms.Combine(sb, sa), ms.Combine(ms.Empty(), sa)} {
+			so = append(so, int64(len(l)))
+			for _, v := range l {
+				so = append(so, int64(v))
+			}
+		}
+		toL := func(l []int) []int64 {
+			r := []int64{}
+			for _, v := range l {
+				r = append(r, int64(v))
+			}
+			return r
+		}
+		emit(Case{Kind: "monslice", Code: int64(len(se)), A: toL(sa), B: toL(sb), E: int64(a), Obs: so})
 		sg := semigroup.From[int](op(code))
 		emit(Case{Kind: "sgfrom", Code: code, A: []int64{int64(a)}, B: []int64{int64(b)}, Obs: []int64{int64(sg.Combine(a, b))}})
 		e := small()
